@@ -131,8 +131,12 @@ def ceval(t: Term, mods):
                 return None
             k = am[2] + bm[2] if op == "+" else am[2] - bm[2]
             return ("mod", m, k % m)
-        if op == "%" and isinstance(b, int) and isinstance(a, tuple) and a[1] and a[1] % b == 0:
+        if op == "%" and isinstance(b, int) and isinstance(a, tuple) and a[1] and b > 0 and a[1] % b == 0:
             return a[2] % b
+        if op == "*" and isinstance(a, tuple) and isinstance(b, int) and a[1]:
+            return ("mod", a[1], (a[2] * b) % a[1])
+        if op == "*" and isinstance(b, tuple) and isinstance(a, int) and b[1]:
+            return ("mod", b[1], (b[2] * a) % b[1])
         return None
     if t[0] == "cmp":
         a, b = ceval(t[2], mods), ceval(t[3], mods)
@@ -147,6 +151,8 @@ def ceval(t: Term, mods):
         return a if a == b else None
     if t[0] == "un" and t[1] == "neg":
         a = ceval(t[2], mods)
+        if isinstance(a, tuple) and a[1]:
+            return ("mod", a[1], (-a[2]) % a[1])
         return -a if isinstance(a, int) else None
     if t[0] == "un" and t[1] == "not":
         a = ceval(t[2], mods)
